@@ -81,27 +81,32 @@ def gen_cases(rng, tier):
     strings = ["".join(t) for L in range(1, maxL + 1) for t in itertools.product("AGC", repeat=L)]
     chunk = 3 if q else 2
     for lo in range(0, len(strings), chunk):
-        cases.append({"kind": "tiny-all", "maxL": maxL, "lo": lo, "hi": min(len(strings), lo + chunk)})
-    for i in range(24 if q else 160):
-        cases.append({"kind": "small", "seed": rng.randrange(2**32), "n": 40, "moltype": "dna" if i % 3 else "protein"})
-    for i in range(48 if q else 420):
+        cases.append({"kind": "tiny-all", "maxL": maxL, "lo": lo, "hi": min(len(strings), lo + chunk), "models": 1 if q else 2})
+    for i in range(16 if q else 160):
+        cases.append({"kind": "small", "seed": rng.randrange(2**32), "n": 20 if q else 40, "moltype": "dna" if i % 3 else "protein"})
+    for i in range(26 if q else 420):
         maxlen = 40 if q else (90 if i % 5 else 150)
         cases.append(
             {
                 "kind": "pairs",
                 "seed": rng.randrange(2**32),
-                "n": {40: 12, 90: 12, 150: 6}[maxlen],
+                "n": 8 if q else {90: 12, 150: 6}[maxlen],
                 "moltype": "dna" if i % 3 else "protein",
                 "maxlen": maxlen,
             }
         )
-    for i in range(32 if q else 400):
-        cases.append({"kind": "toref", "seed": rng.randrange(2**32), "n": 12, "moltype": "dna" if i % 4 else "protein"})
-    for i in range(40 if q else 320):
-        cases.append({"kind": "prog", "seed": rng.randrange(2**32), "n": 7, "model": ["nucleotide", "protein"][i % 2]})
-    for i in range(8 if q else 40):
+    for i in range(18 if q else 400):
+        c = {"kind": "toref", "seed": rng.randrange(2**32), "n": 6 if q else 12, "moltype": "dna" if i % 4 else "protein"}
+        if q:
+            c["refs"] = 2
+        cases.append(c)
+    for i in range(20 if q else 320):
+        cases.append({"kind": "prog", "seed": rng.randrange(2**32), "n": 5 if q else 7, "model": ["nucleotide", "protein"][i % 2]})
+    for i in range(4 if q else 40):
         # codon models are ~100x slower to set up: one problem per case
         cases.append({"kind": "prog", "seed": rng.randrange(2**32), "n": 1, "model": "codon"})
+    for i in range(40 if q else 300):
+        cases.append({"kind": "history", "seed": rng.randrange(2**32), "steps": 16 if q else 30})
     return cases
 
 
@@ -124,6 +129,9 @@ def required(counters, tier):
         "prog:steps:sequences",
         "prog:steps:sub-alignments",
         "prog:model:codon",
+        "history:pair-after-edit",
+        "history:toref-after-edit",
+        "toref:emissions-vs-current-dict",
     ]
     return [k for k in need if not counters.get(k)]
 
@@ -562,14 +570,18 @@ def expected_T(d, e):
 # pairwise
 
 
-def call_pairwise(s1, s2, moltype, S, d, e, local):
+def call_pairwise(s1, s2, moltype, S, d, e, local, live=None):
+    """live = {"Sd": dict, "q1": seq, "q2": seq}: long-lived objects of a history (the caller keeps S == contents of Sd)"""
     from cogent3 import make_seq
     from cogent3.align.align import global_pairwise, local_pairwise
 
-    alpha = alphabet_of(moltype)
-    Sd = {(a, b): S[i][j] for i, a in enumerate(alpha) for j, b in enumerate(alpha)}
-    q1 = make_seq(s1, name="s1", moltype=moltype)
-    q2 = make_seq(s2, name="s2", moltype=moltype)
+    if live:
+        Sd, q1, q2 = live["Sd"], live["q1"], live["q2"]
+    else:
+        alpha = alphabet_of(moltype)
+        Sd = {(a, b): S[i][j] for i, a in enumerate(alpha) for j, b in enumerate(alpha)}
+        q1 = make_seq(s1, name="s1", moltype=moltype)
+        q2 = make_seq(s2, name="s2", moltype=moltype)
     f = local_pairwise if local else global_pairwise
     aln, score = f(q1, q2, Sd, d, e, return_score=True)
     rows = aln.to_dict()
@@ -582,6 +594,7 @@ def check_pair(res, case):
     skind = case.get("skind", "?")
     modes = case.get("modes", ["py_func", "py_ref"])
     limits = case.get("limits", [0])
+    live = case.get("_live")
     mode_name = "local" if local else "global"
     op = f"C18/pairwise/{mode_name}"
     n, m = len(s1), len(s2)
@@ -589,7 +602,7 @@ def check_pair(res, case):
     base = {"s1": s1, "s2": s2, "moltype": moltype, "d": d, "e": e, "local": local, "scoring": skind}
 
     def bad(mech, **detail):
-        res.witness(mech, **base, **detail, replay_case={**replay, "modes": modes, "limits": limits})
+        res.witness(mech, **base, **detail, replay_case=case.get("_replay") or {**replay, "modes": modes, "limits": limits})
 
     def rows_ok(rows, tag):
         """clause 1; returns (r1, r2, [(i0, j0) candidates]) or None"""
@@ -634,7 +647,7 @@ def check_pair(res, case):
     # --- the real call, full DP -------------------------------------------------------------
     try:
         with Setting(HUGE) as st:
-            rows, score = call_pairwise(s1, s2, moltype, S, d, e, local)
+            rows, score = call_pairwise(s1, s2, moltype, S, d, e, local, live)
     except Exception as ex:  # noqa: BLE001
         res.evals += 1
         bad(exc_mechanism(op, ex), error=repr(ex)[:300])
@@ -696,7 +709,7 @@ def check_pair(res, case):
         for limit in limits:
             try:
                 with Setting(limit) as sh:
-                    rows_h, score_h = call_pairwise(s1, s2, moltype, S, d, e, local)
+                    rows_h, score_h = call_pairwise(s1, s2, moltype, S, d, e, local, live)
             except Exception as ex:  # noqa: BLE001
                 res.evals += 1
                 bad(exc_mechanism(f"{op}/hirschberg", ex), error=repr(ex)[:300], limit=limit)
@@ -721,7 +734,7 @@ def check_pair(res, case):
         for mode in modes:
             try:
                 with Setting(HUGE, mode) as sp:
-                    rows_p, score_p = call_pairwise(s1, s2, moltype, S, d, e, local)
+                    rows_p, score_p = call_pairwise(s1, s2, moltype, S, d, e, local, live)
             except Exception as ex:  # noqa: BLE001
                 res.evals += 1
                 bad(exc_mechanism(f"{op}/kernel-{mode}", ex), error=repr(ex)[:300])
@@ -868,9 +881,22 @@ def check_toref(res, case):
     def bad(mech, **detail):
         res.witness(mech, data=data, moltype=moltype, ref=ref, kwargs=kw, **detail, replay_case=replay)
 
+    live = case.get("_live")  # {"Sd": dict, "S": rows, "apps": {}}: one scoring dict object shared by all apps of a history
+    pw_cache = case.get("_pw_cache")
+    if live:
+        replay = case["_replay"]
+
+    def make_app(name):
+        if not live:
+            return get_app("align_to_ref", ref_seq=name, moltype=moltype, **kw)
+        key = (name, moltype, tuple(sorted(kw.items())))
+        if key not in live["apps"]:
+            live["apps"][key] = get_app("align_to_ref", ref_seq=name, moltype=moltype, score_matrix=live["Sd"], **kw)
+        return live["apps"][key]
+
     def run(d):
         seqs = make_unaligned_seqs(d, moltype=moltype)
-        app = get_app("align_to_ref", ref_seq=ref, moltype=moltype, **kw)
+        app = make_app(ref)
         out = app(seqs)
         if not hasattr(out, "to_dict"):
             return None, app_failure(app, seqs, op)
@@ -882,12 +908,32 @@ def check_toref(res, case):
         ref_name = max((len(v), k) for k, v in data.items())[1]
     other = [k for k in names if k != ref_name]
     try:
-        with Setting(HUGE):
+        with Setting(HUGE) as st_msa:
             msa, fail = run(data)
     except Exception as ex:  # noqa: BLE001
         res.evals += 1
         bad(exc_mechanism(op, ex), error=repr(ex)[:300])
         return
+    if live and not fail:
+        # the pair-HMMs the app built must be those of the dict's CURRENT contents
+        alpha = alphabet_of(moltype)
+        pos = {c: i for i, c in enumerate(alpha)}
+        logn = math.log(len(alpha))
+        for cap, k in zip(st_msa.caps if len(st_msa.caps) == len(other) else [], other):
+            hmm = HMM(cap, len(data[ref_name]), len(data[k]))
+            if not hmm.ok:
+                continue
+            res.evals += 1
+            res.count("toref:emissions-vs-current-dict")
+            wrong = [
+                (a, b)
+                for i, a in enumerate(data[ref_name], 1)
+                for j, b in enumerate(data[k], 1)
+                if abs(hmm.eM[i][j] - (logn + live["S"][pos[a]][pos[b]])) > 1e-9
+            ]
+            if wrong:
+                bad(f"{op}/match-emissions-differ-from-scoring-dict", row=k, ref_residue=wrong[0][0], row_residue=wrong[0][1])
+                return
     res.evals += 1
     res.count("toref:msa")
     if fail:
@@ -907,17 +953,22 @@ def check_toref(res, case):
     pw = {}
     for k in other:
         pair = {ref_name: data[ref_name], k: data[k]}
+        if pw_cache is not None and (ref_name, k) in pw_cache:
+            pw[k] = pw_cache[ref_name, k]
+            continue
         try:
             with Setting(HUGE):
                 # same app, that pair alone; name the reference explicitly so 'longest' cannot pick the other one
                 seqs = make_unaligned_seqs(pair, moltype=moltype)
-                out = get_app("align_to_ref", ref_seq=ref_name, moltype=moltype, **kw)(seqs)
+                out = make_app(ref_name)(seqs)
             p = out.to_dict()
         except Exception as ex:  # noqa: BLE001
             res.evals += 1
             bad(exc_mechanism(op + "/pair-alone", ex), error=repr(ex)[:300], pair=pair)
             return
         pw[k] = (p[ref_name], p[k])
+        if pw_cache is not None:
+            pw_cache[ref_name, k] = pw[k]
     classes = injection_classes(pw, ref_name, other)
     for k in other:
         res.evals += 1
@@ -1150,6 +1201,128 @@ def check_prog(res, case):
 
 
 # ---------------------------------------------------------------------------
+# histories on long-lived objects: ONE scoring dict per moltype edited in place between calls, the same sequence
+# objects and align_to_ref app objects reused; every step is decided against the dict's CURRENT contents
+
+HIST = "C18/history/result-depends-on-earlier-calls-with-the-same-objects"
+
+
+def _merge(res, r, replace_witnesses=None):
+    res.evals += r.evals
+    res.refused += r.refused
+    for k, v in r.counters.items():
+        if not k.startswith("witness:"):
+            res.count(k, v)
+    for sg in r.sigs:
+        res.sig(sg)
+    for w in r.witnesses if replace_witnesses is None else replace_witnesses:
+        res.witness(w["mechanism"], **w["detail"])
+
+
+def check_history(res, case):
+    from cogent3 import make_seq
+
+    rng = random.Random(case["seed"])
+    replay = {"kind": "history", "seed": case["seed"], "steps": case["steps"]}
+    state = {}
+    for mt in ("dna", "protein"):
+        alpha = alphabet_of(mt)
+        kind, S, _, _, _ = gen_scoring(rng, mt)
+        S = [list(r) for r in S]
+        Sd = {(a, b): S[i][j] for i, a in enumerate(alpha) for j, b in enumerate(alpha)}
+        letters = list("ACGT") if mt == "dna" else list("AKLMV")
+        base = rand_seq(rng, letters, rng.randint(4, 10))
+        pool = [base] + [mutate(rng, base, letters, 0.15, 0.15)[:12] for _ in range(3)]
+        state[mt] = {"alpha": alpha, "S": S, "Sd": Sd, "apps": {}, "letters": letters, "pool": pool, "objs": {}, "edits": 0}
+    log = []
+
+    def seq_obj(st, mt, text, name):
+        key = (text, name)
+        if key not in st["objs"]:
+            st["objs"][key] = make_seq(text, name=name, moltype=mt)
+        return st["objs"][key]
+
+    for step in range(case["steps"]):
+        mt = rng.choice(["dna", "dna", "protein"])
+        st = state[mt]
+        alpha, S, Sd = st["alpha"], st["S"], st["Sd"]
+        n = len(alpha)
+        act = rng.choice(["edit", "edit", "pair", "pair", "pair", "toref"]) if step else "pair"
+        if act == "edit":
+            how = rng.choice(["mismatch", "asym", "match", "class"])
+            i, j = rng.sample(range(n if mt == "protein" else 4), 2)
+            if mt == "protein":
+                idx = [alpha.index(c) for c in st["letters"]]
+                i, j = rng.sample(idx, 2)
+            v = rng.randint(-9, 6)
+            if how == "mismatch":
+                S[i][j] = S[j][i] = v
+            elif how == "asym":
+                S[i][j] = S[j][i] + rng.choice([-5, -3, 4, 6])
+            elif how == "match":
+                S[i][i] = rng.randint(1, 12)
+            else:
+                for a in range(n):
+                    if a != i:
+                        S[a][i] = S[i][a] = v
+            for a in range(n):
+                for b in range(n):
+                    Sd[alpha[a], alpha[b]] = S[a][b]  # in place: same dict object
+            st["edits"] += 1
+            log.append([step, mt, "edit:" + how])
+            res.count("history:edit")
+            continue
+        snapshot = [list(r) for r in S]
+        if act == "pair":
+            t1, t2 = (rng.choice(st["pool"]) for _ in range(2))
+            if rng.random() < 0.25:
+                t2 = mutate(rng, t1, st["letters"], 0.15, 0.15)[:12]
+            local = rng.random() < 0.4
+            d, e = rng.choice([1, 2, 5, 10]), rng.choice([0, 1, 2])
+            log.append([step, mt, "local" if local else "global", t1, t2, d, e])
+            c = {"s1": t1, "s2": t2, "moltype": mt, "S": snapshot, "d": d, "e": e, "local": local, "skind": "history",
+                 "modes": [], "limits": [0] if rng.random() < 0.3 else [], "_replay": replay}  # fmt: skip
+            r_live = Result()
+            check_pair(r_live, {**c, "_live": {"Sd": Sd, "q1": seq_obj(st, mt, t1, "s1"), "q2": seq_obj(st, mt, t2, "s2")}})
+            res.count("history:pair")
+            if st["edits"]:
+                res.count("history:pair-after-edit")
+                res.sig("history", mt, "pair", "local" if local else "global", min(st["edits"], 3))
+            fresh = lambda: check_pair(r_fresh, c)  # noqa: E731
+        else:
+            k = rng.randint(3, 4)
+            data = {f"s{i}": (st["pool"] + [mutate(rng, st["pool"][0], st["letters"], 0.15, 0.1)[:12]])[i] for i in range(k)}
+            if len(set(data.values())) < 2:
+                continue
+            ref = rng.choice(list(data))
+            kw = {"insertion_penalty": rng.choice([5, 10, 20]), "extension_penalty": rng.choice([1, 2])}
+            log.append([step, mt, "align_to_ref", data, ref, kw])
+            c = {"data": data, "moltype": mt, "ref": ref, "kwargs": kw}
+            r_live = Result()
+            check_toref(r_live, {**c, "_live": {"Sd": Sd, "S": snapshot, "apps": st["apps"]}, "_replay": replay})
+            res.count("history:toref")
+            if st["edits"]:
+                res.count("history:toref-after-edit")
+                res.sig("history", mt, "toref", min(st["edits"], 3))
+            # fresh objects: a new dict with the same contents, new app
+            fresh = lambda: check_toref(r_fresh, {**c, "_live": {"Sd": {(a, b): snapshot[i][j] for i, a in enumerate(alpha) for j, b in enumerate(alpha)}, "S": snapshot, "apps": {}}, "_replay": replay})  # noqa: E731
+        new = [w for w in r_live.witnesses if w["mechanism"] not in (F18, HPOG)]
+        if new and step:
+            # classify: does the same call with fresh objects (same contents) behave?
+            r_fresh = Result()
+            fresh()
+            if not [w for w in r_fresh.witnesses if w["mechanism"] not in (F18, HPOG)]:
+                keep = [w for w in r_live.witnesses if w["mechanism"] in (F18, HPOG)]
+                d0 = dict(new[0]["detail"])
+                d0.pop("replay_case", None)
+                keep.append({"mechanism": HIST, "detail": {"history": log, "step": step, "seen_as": new[0]["mechanism"], "first": d0, "replay_case": replay}})
+                _merge(res, r_live, keep)
+                return
+        _merge(res, r_live)
+    res.sample({"history": log[:6]})
+
+
+# ---------------------------------------------------------------------------
 
 
 def run_case(case):
@@ -1162,7 +1335,7 @@ def run_case(case):
 
         alpha = alphabet_of("dna")
         models = []
-        for args, d, e in (((2, -1, -3), 2, 1), ((1, 0, -1), 0.5, 0)):
+        for args, d, e in (((2, -1, -3), 2, 1), ((1, 0, -1), 0.5, 0))[: case.get("models", 2)]:
             Sd = make_dna_scoring_dict(*args)
             models.append(([[Sd[a, b] for b in alpha] for a in alpha], d, e))
         for s1 in strings[case["lo"] : case["hi"]]:
@@ -1195,15 +1368,21 @@ def run_case(case):
                     {"s1": s1, "s2": s2, "moltype": moltype, "S": S, "d": d, "e": e, "local": local, "skind": skind, "ambig": ambig,
                      "limits": [0, rng.choice([size // 2, size // 4, 60])], "modes": ["py_func", "py_ref"] if rng.random() < 0.5 else []},
                 )  # fmt: skip
+    elif kind == "history":
+        check_history(res, case)
     elif kind == "one-pair":
         check_pair(res, case)
     elif kind == "toref":
         rng = random.Random(case["seed"])
         for _ in range(case["n"]):
             data, kw = gen_toref(rng, case["moltype"])
-            refs = list(data) + (["longest"] if rng.random() < 0.3 else [])
+            refs = list(data)
+            if case.get("refs"):
+                refs = rng.sample(refs, min(len(refs), case["refs"]))  # quick: a sample of the reference choices
+            refs += ["longest"] if rng.random() < 0.3 else []
+            cache = {}
             for ref in refs:
-                check_toref(res, {"data": data, "moltype": case["moltype"], "ref": ref, "kwargs": kw})
+                check_toref(res, {"data": data, "moltype": case["moltype"], "ref": ref, "kwargs": kw, "_pw_cache": cache})
     elif kind == "one-toref":
         check_toref(res, case)
     elif kind == "prog":
